@@ -190,6 +190,7 @@ def scenario(res, flavour, ext, tmp, fault, case):
         pg.eng.feed("1;255;3;0;0;42")       # a change that makes the next save necessary
         pg.eng.feed("60;255;0;0;17;2.2")
         n_err0 = len(pg.tick_errors)
+        pre = cur(pg)
         info = fault(pg)
         # ---- after the faulty tick
         failed = info["failed"]() if callable(info.get("failed")) else info.get("failed", False)
@@ -198,6 +199,12 @@ def scenario(res, flavour, ext, tmp, fault, case):
         res.count("faulty_ticks")
         if info["fired"]():
             res.count("faults_fired")
+            # whatever the save did with the fault, the file must hold ONE complete state: the previously saved one, the
+            # one at the start of this save, or the current one
+            if isinstance(filestate, tuple) or filestate not in (saved, pre, cur(pg)):
+                res.violation(f"file-not-a-complete-state-after:{case['what'].split(':')[0]}",
+                              f"after {case['desc']} the file loads to {'an error: ' + repr(filestate[1]) if isinstance(filestate, tuple) else 'a state that is neither the saved, the pre-save nor the current one'}", case)
+            res.count("file_states_judged")
         if failed:
             res.count("failed_saves")
             if isinstance(filestate, tuple):
